@@ -523,6 +523,9 @@ def parse_tlc(out):
     m2 = re.search(r'Error: Action property (\S+) is violated', out)
     if m2:
         res['violation'] = m2.group(1)
+    m3 = re.search(r'Temporal property (\S+) was violated', out)
+    if m3:
+        res['violation'] = res['violation'] or m3.group(1)
     if 'Temporal properties were violated' in out:
         res['violation'] = res['violation'] or 'temporal'
     if re.search(r'^Error:', out, re.M) or 'Exception' in out and 'tlc2' in out:
